@@ -163,10 +163,23 @@ def ext_binnify(case, ctx):
     args = ["makebins", csfile, str(b), "--rel-ids", str(case["relbase"])]
     if case.get("header"):
         args.append("--header")
+    outfile = None
+    if case.get("out") in ("fresh", "existing"):
+        # --out FILE: a new file, or a file that already holds the bins of an earlier run with another width
+        outfile = os.path.join(d, "bins.out.bed")
+        if case["out"] == "existing":
+            r0 = CliRunner().invoke(cli, ["makebins", csfile, str(b + 3), "--out", outfile])
+            if r0.exit_code != 0:
+                raise RuntimeError(f"cooler makebins exit {r0.exit_code}: {r0.output[-200:]} {r0.exception!r}")
+        args += ["--out", outfile]
     res = CliRunner().invoke(cli, args)
     if res.exit_code != 0:
         raise RuntimeError(f"cooler makebins exit {res.exit_code}: {res.output[-200:]} {res.exception!r}")
-    cli_rows, relids = _parse_bed(res.output, header=case.get("header", False))
+    text = res.output
+    if outfile:
+        with open(outfile) as f:
+            text = f.read()
+    cli_rows, relids = _parse_bed(text, header=case.get("header", False))
     pcs, pb = parse_bins(f"{csfile}:{b}")
     parsed = [[NAMES.index(str(ch)), int(s), int(e)] for ch, s, e in zip(pb["chrom"], pb["start"], pb["end"])]
     return {"table": table, "cli": cli_rows, "relids": relids, "parsed": parsed,
